@@ -3,6 +3,7 @@ import z3
 from mirsym.steplib import judge, call, setup
 from mirsym.post import And, Or, Not, Iff, Implies, opt_cond, BV, bv_sum, L
 from mirsym.values import *
+from mirsym.world import fld
 from mirsym.models.fmt_m import DecSeg
 from props.oracles import *
 from props.C14 import py_glob
@@ -208,6 +209,12 @@ def j_lusers(ctx):
     r = ref_parse(ctx.line.encode())
     if r[1].upper() != b'LUSERS' or ctx.outcome != 'ok': return []
     pre, a = ctx.pre, ctx.actor
+    # the numerics are addressed to the connection's current nick (a prelude may have renamed it)
+    try:
+        nk = fld(ctx.prog, fld(ctx.prog, ctx.conn['cell'].v, 'user_state'), 'nick')
+        if isinstance(nk.variant, int) and nk.variant == 1 and nk.fields[0].py(): a = nk.fields[0].py()
+    except Exception:
+        pass
     srv = server(ctx)
     total = pre.n_users()
     inv = bv_sum([And(u['live'], u['modes']['invisible']) for u in pre.users.values()])
